@@ -247,6 +247,9 @@ impl<'a> PathRun<'a> {
             k.sort();
             k
         };
+        // a different number of fresh slots drawn beforehand: the classes' internal slot names, hence the hashes of the
+        // stored shapes and the order in which the pending map hands them out, differ from path to path
+        for _ in 0..(self.nth % 5) * 3 { let _ = Slot::fresh(); }
         let mut eg: EGraph<T, N> = EGraph::default();
         let mut handles: Vec<(usize, AppliedId)> = Vec::new(); // (universe idx, invocation)
         let mut prev_obs: Option<ImplObs> = None;
